@@ -14,7 +14,13 @@ import LazeModel.Model.Cache
     * Part 6: `unchanged_is_served` (liveness of the cache, for command lines whose names are known),
       `complete_run_hit_eq_namesKnown`.
     * Part 7: evaluated examples (complete / edited / killed / failing runs).
-    * Part 8: `nextOld` — the step order before the repair — violates `hit_sound`. -/
+    * Part 8: `nextOld` — the step order before the repair — violates `hit_sound`.
+    * Part 9: a build file edited while it is being loaded: `window_edit_not_cached`; `nextNoCheck` — the
+      protocol without the comparison pass — violates `hit_sound`.
+
+    The invariant holds for EVERY history: edits may land between any two micro-steps of a run, in
+    particular between the read of a file and the moment its stamp is recorded (`inv_next` has no side
+    condition). What makes this true is the third pass of `load` (phase `checking`). -/
 namespace Laze.C08
 open Laze Laze.Cache
 
@@ -42,17 +48,35 @@ def noRecord : CacheFile → Prop
   | .record .. => False
   | _ => True
 
+/-- every parsed (file, version) has a pre-read stamp `q ∈ pre` that vouches for it: as long as the file's
+    stamp is still `q.2`, its content is still the parsed version -/
+def vouched (sn : Snap) (pre : Stamps) (t : Cache.Tree) : Prop :=
+  ∀ x ∈ sn, ∃ q ∈ pre, q.1 = x.1 ∧ (t.stamp x.1 = q.2 → t.ver x.1 = x.2)
+/-- recorded stamps are in the past of the file: stamps only grow -/
+def past (st : Stamps) (t : Cache.Tree) : Prop := ∀ q ∈ st, q.2 ≤ t.stamp q.1
+
+/-- the comparison pass: every parsed (file, version) has a vouching pre-read stamp `p` that is either still to
+    be compared, or — if every comparison so far succeeded — is literally the stamp recorded in `st` -/
+def checkedSoFar (sn : Snap) (st todo : Stamps) (ok : Bool) (t : Cache.Tree) : Prop :=
+  ∀ x ∈ sn, ∃ p, (t.stamp x.1 = p → t.ver x.1 = x.2) ∧ p ≤ t.stamp x.1 ∧
+    ((x.1, p) ∈ todo ∨ (ok = true → (x.1, p) ∈ st))
+
 def procInv (s : State) : Prop :=
   match s.proc with
   | .idle => True
-  | .parsing _ _ sn => current sn s.tree
-  | .statting _ sn todo st =>
-      current sn s.tree ∧ stampsMatch st s.tree ∧ below st s.tree ∧ (∀ p ∈ sn, p.1 ∈ todo ∨ ∃ q ∈ st, q.1 = p.1)
-  | .statted _ sn st => Faithful sn st s.tree
-  | .removed _ sn st => Faithful sn st s.tree ∧ noRecord s.cache
-  | .created _ sn st => Faithful sn st s.tree ∧ noRecord s.cache
-  | .written _ sn st => Faithful sn st s.tree ∧ noRecord s.cache
-  | .flushed k sn st => Faithful sn st s.tree ∧ noRecord s.cache ∧ s.ninja = .complete sn k
+  | .parsing _ _ sn pre => vouched sn pre s.tree ∧ past pre s.tree ∧ (∀ q ∈ pre, ∃ x ∈ sn, x.1 = q.1)
+  | .reading _ f _ sn pre =>
+      vouched sn pre s.tree ∧ past pre s.tree ∧ (∀ q ∈ pre, q.1 = f ∨ ∃ x ∈ sn, x.1 = q.1) ∧ (∃ q ∈ pre, q.1 = f)
+  | .statting _ sn todo st pre =>
+      vouched sn pre s.tree ∧ past pre s.tree ∧ past st s.tree ∧
+      (∀ q ∈ pre, ∀ r ∈ st, r.1 = q.1 → q.2 ≤ r.2) ∧ (∀ q ∈ pre, q.1 ∈ todo ∨ ∃ r ∈ st, r.1 = q.1)
+  | .checking _ sn st todo ok =>
+      checkedSoFar sn st todo ok s.tree ∧ past st s.tree ∧ (∀ q ∈ todo, ∃ r ∈ st, r.1 = q.1 ∧ q.2 ≤ r.2)
+  | .statted _ sn st ok => (ok = true → Faithful sn st s.tree)
+  | .removed _ sn st ok => (ok = true → Faithful sn st s.tree) ∧ noRecord s.cache
+  | .created _ sn st ok => (ok = true → Faithful sn st s.tree) ∧ noRecord s.cache
+  | .written _ sn st ok => (ok = true → Faithful sn st s.tree) ∧ noRecord s.cache
+  | .flushed k sn st ok => (ok = true → Faithful sn st s.tree) ∧ noRecord s.cache ∧ s.ninja = .complete sn k
 
 structure Inv (s : State) : Prop where
   treeBelow : ∀ f, s.tree.stamp f < s.tree.clock
@@ -95,13 +119,59 @@ theorem match_edit {st : Stamps} {t : Cache.Tree} (f : File) (hb : below st t)
   simp [Cache.Tree.edit, hf q hq] at this
   exact this
 
-/-- the invariant is preserved by every event, edits being excluded only inside the parse→stat window -/
-theorem inv_next (s : State) (e : Ev) (hq : ∀ f, e = .edit f → inWindow s.proc = false)
-    (inv : Inv s) : Inv (next s e) := by
+/-- stamps only grow -/
+theorem stamp_edit_ge {t : Cache.Tree} (f g : File) (tb : ∀ g, t.stamp g < t.clock) :
+    t.stamp g ≤ (t.edit f).stamp g := by
+  simp only [Cache.Tree.edit]
+  split
+  · have := tb g; omega
+  · exact Nat.le_refl _
+
+/-- "stamp unchanged since `p` → content unchanged" survives every edit: an edit of the file gives it a
+    stamp that no earlier observation can have seen -/
+theorem vouch_edit {t : Cache.Tree} (f g : File) (p v : Nat) (tb : ∀ g, t.stamp g < t.clock)
+    (hle : p ≤ t.stamp g) (h : t.stamp g = p → t.ver g = v) :
+    (t.edit f).stamp g = p → (t.edit f).ver g = v := by
+  simp only [Cache.Tree.edit]
+  split
+  · intro h'; have := tb g; omega
+  · exact h
+
+theorem past_edit {st : Stamps} {t : Cache.Tree} (f : File) (tb : ∀ g, t.stamp g < t.clock)
+    (h : past st t) : past st (t.edit f) :=
+  fun q hq => Nat.le_trans (h q hq) (stamp_edit_ge f q.1 tb)
+
+theorem vouched_edit {sn : Snap} {pre : Stamps} {t : Cache.Tree} (f : File) (tb : ∀ g, t.stamp g < t.clock)
+    (hp : past pre t) (h : vouched sn pre t) : vouched sn pre (t.edit f) := by
+  intro x hx
+  obtain ⟨q, hq, hqx, hv⟩ := h x hx
+  exact ⟨q, hq, hqx, vouch_edit f x.1 q.2 x.2 tb (hqx ▸ hp q hq) hv⟩
+
+theorem checkedSoFar_edit {sn : Snap} {st todo : Stamps} {ok : Bool} {t : Cache.Tree} (f : File)
+    (tb : ∀ g, t.stamp g < t.clock) (h : checkedSoFar sn st todo ok t) :
+    checkedSoFar sn st todo ok (t.edit f) := by
+  intro x hx
+  obtain ⟨p, hv, hle, hm⟩ := h x hx
+  exact ⟨p, vouch_edit f x.1 p x.2 tb hle hv, Nat.le_trans hle (stamp_edit_ge f x.1 tb), hm⟩
+
+/-- the end of the comparison pass: if every comparison succeeded, the pair is safe to vouch for -/
+theorem faithful_of_checked {sn : Snap} {st : Stamps} {t : Cache.Tree} (tb : ∀ g, t.stamp g < t.clock)
+    (h : checkedSoFar sn st [] true t) (hp : past st t) : Faithful sn st t := by
+  refine ⟨fun q hq => Nat.lt_of_le_of_lt (hp q hq) (tb q.1), fun x hx => ?_, fun hm x hx => ?_⟩
+  · obtain ⟨p, _, _, hm⟩ := h x hx
+    rcases hm with hm | hm
+    · simp at hm
+    · exact ⟨(x.1, p), hm rfl, rfl⟩
+  · obtain ⟨p, hv, _, hmem⟩ := h x hx
+    rcases hmem with hmem | hmem
+    · simp at hmem
+    · exact hv (hm (x.1, p) (hmem rfl))
+
+/-- the invariant is preserved by every event — in particular by an edit at any moment of a run -/
+theorem inv_next (s : State) (e : Ev) (inv : Inv s) : Inv (next s e) := by
   obtain ⟨tb, co, po⟩ := inv
   cases e with
   | edit f =>
-    have hw := hq f rfl
     refine ⟨fun g => ?_, fun a st sn hc => ?_, ?_⟩
     · simp only [next, Cache.Tree.edit]
       split
@@ -110,16 +180,39 @@ theorem inv_next (s : State) (e : Ev) (hq : ∀ f, e = .edit f → inWindow s.pr
     · obtain ⟨hf, hn⟩ := co a st sn hc
       exact ⟨faithful_edit f tb hf, fun hm => hn (match_edit f hf.below hm).1⟩
     · unfold procInv at *
-      cases hp : s.proc <;> simp only [next, hp, inWindow] at * <;> first
-        | trivial
-        | contradiction
-        | exact faithful_edit f tb po
-        | exact ⟨faithful_edit f tb po.1, po.2⟩
-        | exact ⟨faithful_edit f tb po.1, po.2.1, po.2.2⟩
+      cases hp : s.proc with
+      | idle => simp only [next, hp]
+      | parsing a todo sn pre =>
+        simp only [next, hp] at *
+        exact ⟨vouched_edit f tb po.2.1 po.1, past_edit f tb po.2.1, po.2.2⟩
+      | reading a g todo sn pre =>
+        simp only [next, hp] at *
+        exact ⟨vouched_edit f tb po.2.1 po.1, past_edit f tb po.2.1, po.2.2⟩
+      | statting a sn todo st pre =>
+        simp only [next, hp] at *
+        exact ⟨vouched_edit f tb po.2.1 po.1, past_edit f tb po.2.1, past_edit f tb po.2.2.1, po.2.2.2⟩
+      | checking a sn st todo ok =>
+        simp only [next, hp] at *
+        exact ⟨checkedSoFar_edit f tb po.1, past_edit f tb po.2.1, po.2.2⟩
+      | statted a sn st ok =>
+        simp only [next, hp] at *
+        exact fun h => faithful_edit f tb (po h)
+      | removed a sn st ok =>
+        simp only [next, hp] at *
+        exact ⟨fun h => faithful_edit f tb (po.1 h), po.2⟩
+      | created a sn st ok =>
+        simp only [next, hp] at *
+        exact ⟨fun h => faithful_edit f tb (po.1 h), po.2⟩
+      | written a sn st ok =>
+        simp only [next, hp] at *
+        exact ⟨fun h => faithful_edit f tb (po.1 h), po.2⟩
+      | flushed a sn st ok =>
+        simp only [next, hp] at *
+        exact ⟨fun h => faithful_edit f tb (po.1 h), po.2⟩
   | start a files =>
     cases hp : s.proc <;> simp only [next, hp] <;> first
       | exact ⟨tb, co, po⟩
-      | exact ⟨tb, co, by simp [procInv, current]⟩
+      | exact ⟨tb, co, by simp [procInv, vouched, past]⟩
   | kill => exact ⟨tb, co, by simp [next, procInv]⟩
   | fail =>
     cases hp : s.proc <;> simp only [next, hp] <;> first
@@ -129,78 +222,140 @@ theorem inv_next (s : State) (e : Ev) (hq : ∀ f, e = .edit f → inWindow s.pr
     unfold procInv at po
     cases hp : s.proc with
     | idle => simpa [next, hp] using (⟨tb, co, by simp [procInv, hp]⟩ : Inv s)
-    | parsing a todo sn =>
+    | parsing a todo sn pre =>
       rw [hp] at po; simp only at po
+      obtain ⟨hv, hpast, hcov⟩ := po
       cases todo with
       | nil =>
         simp only [next, hp]
         refine ⟨tb, co, ?_⟩
         simp only [procInv]
-        refine ⟨po, by simp [stampsMatch], by simp [below], fun p hp' => Or.inl ?_⟩
-        exact List.mem_map_of_mem (f := (·.1)) hp'
+        refine ⟨hv, hpast, by simp [past], by simp, fun q hq => Or.inl ?_⟩
+        obtain ⟨x, hx, hxq⟩ := hcov q hq
+        exact hxq ▸ List.mem_map_of_mem (f := (·.1)) hx
       | cons f todo =>
         simp only [next, hp]
         refine ⟨tb, co, ?_⟩
-        simp only [procInv, current]
-        intro p hp'
-        simp at hp'
-        rcases hp' with hp' | rfl
-        · exact po p hp'
-        · rfl
-    | statting a sn todo st =>
+        simp only [procInv]
+        refine ⟨?_, ?_, ?_, ⟨(f, s.tree.stamp f), by simp, rfl⟩⟩
+        · intro x hx
+          obtain ⟨q, hq, h⟩ := hv x hx
+          exact ⟨q, by simp [hq], h⟩
+        · intro q hq; simp at hq; rcases hq with hq | rfl
+          · exact hpast q hq
+          · exact Nat.le_refl _
+        · intro q hq; simp at hq; rcases hq with hq | rfl
+          · exact Or.inr (hcov q hq)
+          · exact Or.inl rfl
+    | reading a f todo sn pre =>
       rw [hp] at po; simp only at po
-      obtain ⟨hcur, hmat, hbel, hcov⟩ := po
+      obtain ⟨hv, hpast, hcov, q0, hq0, hq0f⟩ := po
+      simp only [next, hp]
+      refine ⟨tb, co, ?_⟩
+      simp only [procInv]
+      refine ⟨?_, hpast, ?_⟩
+      · intro x hx; simp at hx; rcases hx with hx | rfl
+        · exact hv x hx
+        · exact ⟨q0, hq0, hq0f, fun _ => rfl⟩
+      · intro q hq
+        rcases hcov q hq with h | ⟨x, hx, hxq⟩
+        · exact ⟨(f, s.tree.ver f), by simp, h.symm⟩
+        · exact ⟨x, by simp [hx], hxq⟩
+    | statting a sn todo st pre =>
+      rw [hp] at po; simp only at po
+      obtain ⟨hv, hpast, hst, hle, hcov⟩ := po
       cases todo with
       | nil =>
         simp only [next, hp]
         refine ⟨tb, co, ?_⟩
         simp only [procInv]
-        refine ⟨hbel, fun p hp' => ?_, fun _ => hcur⟩
-        rcases hcov p hp' with h | h
-        · simp at h
-        · exact h
+        refine ⟨fun x hx => ?_, hst, fun q hq => ?_⟩
+        · obtain ⟨q, hq, hqx, h⟩ := hv x hx
+          refine ⟨q.2, h, hqx ▸ hpast q hq, Or.inl ?_⟩
+          rw [← hqx]; exact hq
+        · rcases hcov q hq with h | ⟨r, hr, hrq⟩
+          · simp at h
+          · exact ⟨r, hr, hrq, hle q hq r hr hrq⟩
       | cons f todo =>
         simp only [next, hp]
         refine ⟨tb, co, ?_⟩
         simp only [procInv]
-        refine ⟨hcur, ?_, ?_, ?_⟩
-        · intro q hq; simp at hq; rcases hq with hq | rfl
-          · exact hmat q hq
-          · rfl
-        · intro q hq; simp at hq; rcases hq with hq | rfl
-          · exact hbel q hq
-          · exact tb f
-        · intro p hp'
-          rcases hcov p hp' with h | ⟨q, hq, hqp⟩
+        refine ⟨hv, hpast, ?_, ?_, ?_⟩
+        · intro r hr; simp at hr; rcases hr with hr | rfl
+          · exact hst r hr
+          · exact Nat.le_refl _
+        · intro q hq r hr hrq; simp at hr; rcases hr with hr | rfl
+          · exact hle q hq r hr hrq
+          · simp only at hrq ⊢; rw [hrq]; exact hpast q hq
+        · intro q hq
+          rcases hcov q hq with h | ⟨r, hr, hrq⟩
           · simp at h; rcases h with h | h
             · exact Or.inr ⟨(f, s.tree.stamp f), by simp, h.symm⟩
             · exact Or.inl h
-          · exact Or.inr ⟨q, by simp [hq], hqp⟩
-    | statted a sn st =>
+          · exact Or.inr ⟨r, by simp [hr], hrq⟩
+    | checking a sn st todo ok =>
+      rw [hp] at po; simp only at po
+      obtain ⟨hc, hst, hcov⟩ := po
+      cases todo with
+      | nil =>
+        simp only [next, hp]
+        refine ⟨tb, co, ?_⟩
+        simp only [procInv]
+        intro hok; subst hok
+        exact faithful_of_checked tb hc hst
+      | cons q todo =>
+        simp only [next, hp]
+        refine ⟨tb, co, ?_⟩
+        simp only [procInv]
+        refine ⟨fun x hx => ?_, hst, fun q' hq' => hcov q' (by simp [hq'])⟩
+        obtain ⟨p, hvx, hpx, hm⟩ := hc x hx
+        refine ⟨p, hvx, hpx, ?_⟩
+        rcases hm with hm | hm
+        · simp only [List.mem_cons] at hm
+          rcases hm with hm | hm
+          · -- the pair being compared now: success means the recorded stamp is the pre-read stamp
+            refine Or.inr (fun hok => ?_)
+            simp only [Bool.and_eq_true, beq_iff_eq] at hok
+            obtain ⟨r, hr, hrq, hqr⟩ := hcov q (by simp)
+            have h1 := hst r hr
+            rw [hrq, hok.2] at h1
+            have : r = q := Prod.ext hrq (Nat.le_antisymm h1 hqr)
+            rw [hm, ← this]; exact hr
+          · exact Or.inl hm
+        · refine Or.inr (fun hok => hm ?_)
+          simp only [Bool.and_eq_true] at hok
+          exact hok.1
+    | statted a sn st ok =>
       rw [hp] at po; simp only at po
       simp only [next, hp]
-      exact ⟨tb, fun a st sn h => by simp at h, by simp [procInv, po, noRecord]⟩
-    | removed a sn st =>
+      exact ⟨tb, fun a st sn h => by simp at h, by simp only [procInv]; exact ⟨po, by simp [noRecord]⟩⟩
+    | removed a sn st ok =>
       rw [hp] at po; simp only at po
       simp only [next, hp]
-      refine ⟨tb, fun a' st' sn' h => ?_, by simp [procInv, po]⟩
+      refine ⟨tb, fun a' st' sn' h => ?_, by simp only [procInv]; exact po⟩
       have := po.2; simp only at h; rw [h] at this; exact absurd this (by simp [noRecord])
-    | created a sn st =>
+    | created a sn st ok =>
       rw [hp] at po; simp only at po
       simp only [next, hp]
-      exact ⟨tb, co, by simp [procInv, po]⟩
-    | written a sn st =>
+      exact ⟨tb, co, by simp only [procInv]; exact po⟩
+    | written a sn st ok =>
       rw [hp] at po; simp only at po
       simp only [next, hp]
-      refine ⟨tb, fun a' st' sn' h => ?_, by simp [procInv, po]⟩
+      refine ⟨tb, fun a' st' sn' h => ?_, by simp only [procInv]; exact ⟨po.1, po.2, trivial⟩⟩
       have := po.2; simp only at h; rw [h] at this; exact absurd this (by simp [noRecord])
-    | flushed a sn st =>
+    | flushed a sn st ok =>
       rw [hp] at po; simp only at po
       simp only [next, hp]
       refine ⟨tb, fun a' st' sn' h => ?_, by simp [procInv]⟩
-      simp only [CacheFile.record.injEq] at h
-      obtain ⟨rfl, rfl, rfl⟩ := h
-      exact ⟨po.1, fun _ => po.2.2⟩
+      cases ok with
+      | true =>
+        simp only [if_true, CacheFile.record.injEq] at h
+        obtain ⟨rfl, rfl, rfl⟩ := h
+        exact ⟨po.1 rfl, fun _ => po.2.2⟩
+      | false =>
+        -- no record is written, and the old one was removed
+        have := po.2.1; simp only [Bool.false_eq_true, if_false] at h; rw [h] at this
+        exact absurd this (by simp [noRecord])
 
 /-! ## Part 2/3 — the initial state, histories -/
 
@@ -209,33 +364,14 @@ theorem inv_init : Inv init :=
 
 def runEvents (s : State) (es : List Ev) : State := es.foldl next s
 
-/-- along the trace, whenever the next event is an `edit`, the process is not inside the
-    parse→stat window at that moment -/
-def NoEditInWindow : State → List Ev → Prop
-  | _, [] => True
-  | s, e :: es => (∀ f, e = .edit f → inWindow s.proc = false) ∧ NoEditInWindow (next s e) es
-
-instance decNoEditInWindow : (s : State) → (es : List Ev) → Decidable (NoEditInWindow s es)
-  | _, [] => isTrue trivial
-  | s, e :: es =>
-    have : Decidable (∀ f, e = .edit f → inWindow s.proc = false) :=
-      match e with
-      | .edit f => decidable_of_iff (inWindow s.proc = false) ⟨fun h _ _ => h, fun h => h f rfl⟩
-      | .start .. => isTrue (fun _ h => by cases h)
-      | .step => isTrue (fun _ h => by cases h)
-      | .kill => isTrue (fun _ h => by cases h)
-      | .fail => isTrue (fun _ h => by cases h)
-    have := decNoEditInWindow (next s e) es
-    inferInstanceAs (Decidable (_ ∧ _))
-
-theorem inv_runEvents (s : State) (es : List Ev) (inv : Inv s) (h : NoEditInWindow s es) :
-    Inv (runEvents s es) := by
+theorem inv_runEvents (s : State) (es : List Ev) (inv : Inv s) : Inv (runEvents s es) := by
   induction es generalizing s with
   | nil => exact inv
-  | cons e es ih => exact ih (next s e) (inv_next s e h.1 inv) h.2
+  | cons e es ih => exact ih (next s e) (inv_next s e inv)
 
-theorem inv_reachable (es : List Ev) (h : NoEditInWindow init es) : Inv (runEvents init es) :=
-  inv_runEvents init es inv_init h
+/-- every history of edits, run starts, micro-steps, kills and failures — in any interleaving — keeps the invariant -/
+theorem inv_reachable (es : List Ev) : Inv (runEvents init es) :=
+  inv_runEvents init es inv_init
 
 /-! ## Part 4 — safety -/
 
@@ -254,12 +390,12 @@ theorem hit_sound (s : State) (inv : Inv s) (k : Key) (h : hit s k = true) :
     obtain ⟨hf, hn⟩ := inv.cacheOk r st sn hc
     exact ⟨r, st, sn, rfl, h.1, hn hm, hf.cur hm⟩
 
-theorem cache_safe (es : List Ev) (h : NoEditInWindow init es) (k : Key)
+theorem cache_safe (es : List Ev) (k : Key)
     (hh : hit (runEvents init es) k = true) :
     ∃ r st sn, (runEvents init es).cache = .record r st sn ∧ keyValid r k = true ∧
       (runEvents init es).ninja = .complete sn r ∧
       (∀ p ∈ sn, (runEvents init es).tree.ver p.1 = p.2) :=
-  hit_sound _ (inv_reachable es h) k hh
+  hit_sound _ (inv_reachable es) k hh
 
 /-! ## Part 5 — never accepted after a change -/
 
@@ -308,58 +444,107 @@ theorem stepsUntil_idle (p : Proc → Bool) (n : Nat) (s : State) (h : s.proc = 
     stepsUntil p n s = s := by
   cases n <;> simp [stepsUntil, h]
 
-theorem stepsUntil_succ (n : Nat) (s : State) (h : s.proc ≠ .idle) :
-    stepsUntil (fun _ => false) (n + 1) s = stepsUntil (fun _ => false) n (next s .step) := by
-  simp [stepsUntil, h]
+theorem stepsUntil_succ (p : Proc → Bool) (n : Nat) (s : State) (hp : p s.proc = false) (h : s.proc ≠ .idle) :
+    stepsUntil p (n + 1) s = stepsUntil p n (next s .step) := by
+  simp [stepsUntil, h, hp]
 
-/-- the parse loop, uninterrupted -/
-theorem steps_parsing (k : Key) (todo : List File) : ∀ (sn : Snap) (n : Nat) (s : State),
-    s.proc = .parsing k todo sn →
-    stepsUntil (fun _ => false) (n + todo.length + 1) s =
-      stepsUntil (fun _ => false) n
+theorem stepsUntil_reached (p : Proc → Bool) (n : Nat) (s : State) (hp : p s.proc = true) :
+    stepsUntil p n s = s := by
+  cases n <;> simp [stepsUntil, hp]
+
+/-- the stat+read loop, uninterrupted (two micro-steps per file) -/
+theorem steps_parsing (p : Proc → Bool) (hp1 : ∀ k todo sn pre, p (.parsing k todo sn pre) = false)
+    (hp2 : ∀ k f todo sn pre, p (.reading k f todo sn pre) = false) (k : Key) (todo : List File) :
+    ∀ (sn : Snap) (pre : Stamps) (n : Nat) (s : State),
+    s.proc = .parsing k todo sn pre →
+    stepsUntil p (n + 2 * todo.length + 1) s =
+      stepsUntil p n
         { s with proc := .statting k (sn ++ todo.map (fun f => (f, s.tree.ver f)))
-                          ((sn ++ todo.map (fun f => (f, s.tree.ver f))).map (·.1)) [] } := by
+                          ((sn ++ todo.map (fun f => (f, s.tree.ver f))).map (·.1)) []
+                          (pre ++ todo.map (fun f => (f, s.tree.stamp f))) } := by
   induction todo with
   | nil =>
-    intro sn n s hp
-    rw [List.length_nil, Nat.add_zero, stepsUntil_succ _ _ (by simp [hp])]
+    intro sn pre n s hp
+    rw [List.length_nil, Nat.mul_zero, Nat.add_zero, stepsUntil_succ _ _ _ (by simp [hp, hp1]) (by simp [hp])]
     simp [next, hp]
   | cons f todo ih =>
-    intro sn n s hp
-    rw [List.length_cons, ← Nat.add_assoc, stepsUntil_succ _ _ (by simp [hp])]
-    have : next s .step = { s with proc := .parsing k todo (sn ++ [(f, s.tree.ver f)]) } := by
+    intro sn pre n s hp
+    rw [List.length_cons, show n + 2 * (todo.length + 1) + 1 = (n + 2 * todo.length + 1) + 1 + 1 by omega,
+      stepsUntil_succ _ _ _ (by simp [hp, hp1]) (by simp [hp])]
+    have h1 : next s .step = { s with proc := .reading k f todo sn (pre ++ [(f, s.tree.stamp f)]) } := by
+      simp [next, hp]
+    rw [h1, stepsUntil_succ _ _ _ (by simp [hp2]) (by simp)]
+    have h2 : next { s with proc := .reading k f todo sn (pre ++ [(f, s.tree.stamp f)]) } .step =
+        { s with proc := .parsing k todo (sn ++ [(f, s.tree.ver f)]) (pre ++ [(f, s.tree.stamp f)]) } := by
+      simp [next]
+    rw [h2, ih _ _ n _ rfl]
+    simp [List.append_assoc]
+
+/-- the treestate loop, uninterrupted -/
+theorem steps_statting (k : Key) (sn : Snap) (pre : Stamps) (todo : List File) :
+    ∀ (st : Stamps) (n : Nat) (s : State),
+    s.proc = .statting k sn todo st pre →
+    stepsUntil (fun _ => false) (n + todo.length + 1) s =
+      stepsUntil (fun _ => false) n
+        { s with proc := .checking k sn (st ++ todo.map (fun f => (f, s.tree.stamp f))) pre true } := by
+  induction todo with
+  | nil =>
+    intro st n s hp
+    rw [List.length_nil, Nat.add_zero, stepsUntil_succ _ _ _ rfl (by simp [hp])]
+    simp [next, hp]
+  | cons f todo ih =>
+    intro st n s hp
+    rw [List.length_cons, ← Nat.add_assoc, stepsUntil_succ _ _ _ rfl (by simp [hp])]
+    have : next s .step = { s with proc := .statting k sn todo (st ++ [(f, s.tree.stamp f)]) pre } := by
       simp [next, hp]
     rw [this, ih _ n _ rfl]
     simp [List.append_assoc]
 
-/-- the stat loop, uninterrupted -/
-theorem steps_statting (k : Key) (sn : Snap) (todo : List File) : ∀ (st : Stamps) (n : Nat) (s : State),
-    s.proc = .statting k sn todo st →
+/-- the comparison loop, uninterrupted: `ok` survives iff every pre-read stamp is still the file's stamp -/
+theorem steps_checking (k : Key) (sn : Snap) (st : Stamps) (todo : Stamps) :
+    ∀ (ok : Bool) (n : Nat) (s : State),
+    s.proc = .checking k sn st todo ok →
     stepsUntil (fun _ => false) (n + todo.length + 1) s =
       stepsUntil (fun _ => false) n
-        { s with proc := .statted k sn (st ++ todo.map (fun f => (f, s.tree.stamp f))) } := by
+        { s with proc := .statted k sn st (ok && todo.all (fun q => s.tree.stamp q.1 == q.2)) } := by
   induction todo with
   | nil =>
-    intro st n s hp
-    rw [List.length_nil, Nat.add_zero, stepsUntil_succ _ _ (by simp [hp])]
+    intro ok n s hp
+    rw [List.length_nil, Nat.add_zero, stepsUntil_succ _ _ _ rfl (by simp [hp])]
     simp [next, hp]
-  | cons f todo ih =>
-    intro st n s hp
-    rw [List.length_cons, ← Nat.add_assoc, stepsUntil_succ _ _ (by simp [hp])]
-    have : next s .step = { s with proc := .statting k sn todo (st ++ [(f, s.tree.stamp f)]) } := by
+  | cons q todo ih =>
+    intro ok n s hp
+    rw [List.length_cons, ← Nat.add_assoc, stepsUntil_succ _ _ _ rfl (by simp [hp])]
+    have : next s .step = { s with proc := .checking k sn st todo (ok && (s.tree.stamp q.1 == q.2)) } := by
       simp [next, hp]
     rw [this, ih _ n _ rfl]
-    simp [List.append_assoc]
+    simp [Bool.and_assoc]
 
 /-- from `statted` to the end of the run -/
-theorem steps_tail (k : Key) (sn : Snap) (st : Stamps) (n : Nat) (s : State)
-    (hp : s.proc = .statted k sn st) :
+theorem steps_tail (k : Key) (sn : Snap) (st : Stamps) (ok : Bool) (n : Nat) (s : State)
+    (hp : s.proc = .statted k sn st ok) :
     stepsUntil (fun _ => false) (n + 5) s =
-      { s with ninja := .complete sn k, cache := .record k st sn, proc := .idle } := by
+      { s with ninja := .complete sn k, cache := if ok then .record k st sn else .absent, proc := .idle } := by
   cases s with
   | mk tree ninja cache proc =>
     cases hp
     cases n <;> simp [stepsUntil, next]
+
+/-- the whole run from the moment every file has been read (phase `statting`, nothing stat'ed yet), uninterrupted -/
+theorem steps_from_parsed (k : Key) (sn : Snap) (pre : Stamps) (files : List File) (n : Nat) (s : State)
+    (hp : s.proc = .statting k sn files [] pre) (hpre : pre.length ≤ files.length) :
+    stepsUntil (fun _ => false) (n + 2 * files.length + 7) s =
+      { s with ninja := .complete sn k
+               cache := if pre.all (fun q => s.tree.stamp q.1 == q.2)
+                 then .record k (files.map (fun f => (f, s.tree.stamp f))) sn else .absent
+               proc := .idle } := by
+  rw [show n + 2 * files.length + 7 = (n + (files.length - pre.length) + pre.length + 6) + files.length + 1 by omega,
+    steps_statting k sn pre files [] _ s hp]
+  rw [show n + (files.length - pre.length) + pre.length + 6 = (n + (files.length - pre.length) + 5) + pre.length + 1 by omega,
+    steps_checking k sn _ pre true _ _ rfl]
+  rw [show n + (files.length - pre.length) + 5 = (n + (files.length - pre.length)) + 5 by omega,
+    steps_tail k sn _ _ _ _ rfl]
+  rfl
 
 /-- what a complete, uninterrupted, cache-missing run does to the disk -/
 theorem run_never (s : State) (k : Key) (files : List File) (hi : s.proc = .idle)
@@ -369,18 +554,17 @@ theorem run_never (s : State) (k : Key) (files : List File) (hi : s.proc = .idle
                cache := .record k (files.map (fun f => (f, s.tree.stamp f)))
                           (files.map (fun f => (f, s.tree.ver f)))
                proc := .idle } := by
-  have h0 : next s (.start k files) = { s with proc := .parsing k files [] } := by
+  have h0 : next s (.start k files) = { s with proc := .parsing k files [] [] } := by
     simp [next, hi]
   have hmap : (files.map (fun f => (f, s.tree.ver f))).map (·.1) = files := by
     simp [List.map_map, Function.comp_def]
   simp only [run, hm, Bool.false_eq_true, if_false, h0]
-  rw [show 2 * files.length + 12 = (files.length + 11) + files.length + 1 by omega,
-    steps_parsing k files [] _ _ rfl]
+  rw [show 4 * files.length + 12 = (2 * files.length + 11) + 2 * files.length + 1 by omega,
+    steps_parsing _ (fun _ _ _ _ => rfl) (fun _ _ _ _ _ => rfl) k files [] [] _ _ rfl]
   simp only [List.nil_append, hmap]
-  rw [show files.length + 11 = 10 + files.length + 1 by omega,
-    steps_statting k _ files [] _ _ rfl]
-  simp only [List.nil_append]
-  rw [show (10 : Nat) = 5 + 5 from rfl, steps_tail k _ _ 5 _ rfl]
+  rw [show 2 * files.length + 11 = 4 + 2 * files.length + 7 by omega,
+    steps_from_parsed k _ _ files 4 _ rfl (by simp)]
+  simp
 
 /-- a complete uninterrupted run, without any edit, leaves a cache that serves the same command line -/
 theorem unchanged_is_served (s : State) (k : Key) (files : List File) (hi : s.proc = .idle)
@@ -419,13 +603,24 @@ theorem rerun_is_hit (s : State) (k : Key) (files : List File) (hi : s.proc = .i
     | false => exact (unchanged_is_served s k files hi hk hm).2.2.2
   exact ⟨h, by rw [run, if_pos h]⟩
 
-/-- the last micro-step: writing the cache record makes the key a hit -/
+/-- the last micro-step: writing the cache record (the comparison pass found no change) makes the key a hit -/
 theorem flushed_step_hits (s : State) (inv : Inv s) (k : Key) (sn : Snap) (st : Stamps)
-    (hp : s.proc = .flushed k sn st) (hmatch : stampsMatch st s.tree) (hk : k.namesKnown = true) :
+    (hp : s.proc = .flushed k sn st true) (hmatch : stampsMatch st s.tree) (hk : k.namesKnown = true) :
     hit (next s .step) k = true ∧ (next s .step).ninja = .complete sn k := by
   have po := inv.procOk
   simp only [procInv, hp] at po
   simp [next, hp, hit, keyValid_refl k hk, (stampsMatchB_iff st s.tree).2 hmatch, po.2.2]
+
+/-- … and when the comparison pass found a change, the last micro-step writes nothing: no key hits -/
+theorem flushed_step_no_record (s : State) (inv : Inv s) (k : Key) (sn : Snap) (st : Stamps)
+    (hp : s.proc = .flushed k sn st false) (k' : Key) :
+    hit (next s .step) k' = false ∧ (next s .step).ninja = .complete sn k := by
+  have po := inv.procOk
+  simp only [procInv, hp] at po
+  have hn := po.2.1
+  refine ⟨?_, by simp [next, hp, po.2.2]⟩
+  simp only [next, hp, hit, Bool.false_eq_true, if_false]
+  cases hc : s.cache <;> simp_all [noRecord]
 
 /-! ### the file of a hit is the file a fresh run produces -/
 
@@ -516,45 +711,54 @@ example :
     s.ninja = .short ∧ s.cache = .absent ∧ s.proc = .idle ∧ hit s k1 = false ∧ hit s k2 = false ∧
     (runFailing (run init k1 ["a"] .never).1 k1 ["a"]).2 = .hit := by decide
 
-/-- the histories of (a)–(d) are covered by `cache_safe`: e.g. the trace of (c) as events -/
+/-- the histories of (a)–(d) are covered by `cache_safe`: e.g. the trace of (c) as events (a run over one file
+    takes 12 micro-steps: stat, read, end of reads, stat, end of stats, compare, end of compares, then the five
+    disk steps) -/
 example :
-    let es : List Ev := [.start k1 ["a"]] ++ List.replicate 9 .step ++ [.edit "a", .start k1 ["a"]] ++
-      List.replicate 6 .step ++ [.kill, .edit "b"]
-    NoEditInWindow init es ∧ (runEvents init es).ninja = .short ∧ hit (runEvents init es) k1 = false := by
+    let es : List Ev := [.start k1 ["a"]] ++ List.replicate 12 .step ++ [.edit "a", .start k1 ["a"]] ++
+      List.replicate 9 .step ++ [.kill, .edit "b"]
+    (runEvents init (es.take 13)).proc = .idle ∧ hit (runEvents init (es.take 13)) k1 = true ∧
+    (runEvents init es).ninja = .short ∧ hit (runEvents init es) k1 = false := by
   decide
 
-/-! ## Part 8 — why the step order matters: the protocol before the repair -/
+/-- (e) fault points of `load`: killed after the reads, or after the treestate was taken and compared -/
+example :
+    (run init k1 ["a", "b"] .afterParse).1.cache = .absent ∧ (run init k1 ["a", "b"] .afterStat).1.cache = .absent ∧
+    (run init k1 ["a", "b"] .afterStat).1.ninja = .absent ∧ (run init k1 ["a", "b"] .afterStat).2 = .stopped := by
+  decide
+
+/-! ## Part 8 — why the step order matters: the protocol before the (earlier) repair of the step order -/
 
 /-- identical to `next` except that the old cache file is NOT removed before the ninja file is
     created (the order the implementation had before it was repaired) -/
 def nextOld (s : State) : Ev → State
   | .step => match s.proc with
-      | .statted k sn st => { s with proc := .removed k sn st }
+      | .statted k sn st ok => { s with proc := .removed k sn st ok }
       | _ => next s .step
   | e => next s e
 
 theorem nextOld_eq_next (s : State) (e : Ev)
-    (h : e = .step → ∀ k sn st, s.proc ≠ .statted k sn st) : nextOld s e = next s e := by
+    (h : e = .step → ∀ k sn st ok, s.proc ≠ .statted k sn st ok) : nextOld s e = next s e := by
   cases e <;> try rfl
   cases hp : s.proc <;> simp [nextOld, hp]
-  exact absurd hp (h rfl _ _ _)
+  exact absurd hp (h rfl _ _ _ _)
 
-theorem nextOld_statted (s : State) (k : Key) (sn : Snap) (st : Stamps) (hp : s.proc = .statted k sn st) :
-    nextOld s .step = { s with proc := .removed k sn st } ∧
-    next s .step = { s with cache := .absent, proc := .removed k sn st } := by
+theorem nextOld_statted (s : State) (k : Key) (sn : Snap) (st : Stamps) (ok : Bool)
+    (hp : s.proc = .statted k sn st ok) :
+    nextOld s .step = { s with proc := .removed k sn st ok } ∧
+    next s .step = { s with cache := .absent, proc := .removed k sn st ok } := by
   simp [nextOld, next, hp]
 
 /-- a complete run with `k1`; then a run with `k2` (which misses) killed right after it created the
     ninja file -/
 def oldTrace : List Ev :=
-  [.start k1 ["a"]] ++ List.replicate 9 .step ++ [.start k2 ["a"]] ++ List.replicate 6 .step ++ [.kill]
+  [.start k1 ["a"]] ++ List.replicate 12 .step ++ [.start k2 ["a"]] ++ List.replicate 9 .step ++ [.kill]
 
 /-- with the old order, the truncated file sits next to a cache that still accepts `k1` -/
 theorem nextOld_unsound :
-    let s10 := (oldTrace.take 10).foldl nextOld init
+    let s13 := (oldTrace.take 13).foldl nextOld init
     let s := oldTrace.foldl nextOld init
-    (s10.proc = .idle ∧ hit s10 k1 = true ∧ hit s10 k2 = false) ∧
-    NoEditInWindow init oldTrace ∧
+    (s13.proc = .idle ∧ hit s13 k1 = true ∧ hit s13 k2 = false) ∧
     s.proc = .idle ∧ s.ninja = .short ∧ hit s k1 = true := by decide
 
 /-- … so the conclusion of `hit_sound` fails for `nextOld` -/
@@ -573,5 +777,127 @@ theorem nextOld_violates_hit_sound :
 example :
     (runEvents init oldTrace).ninja = .short ∧ (runEvents init oldTrace).cache = .absent ∧
     hit (runEvents init oldTrace) k1 = false := by decide
+
+/-! ## Part 9 — a build file edited while it is being loaded
+
+    `load` records each file's stamp just before reading it and compares it again after the treestate was
+    taken; if any differs, the run finishes its ninja file but writes no cache record. -/
+
+/-- what a run does when build file `f` (one of the loaded files) is edited right after every file was read:
+    it completes — the ninja file is generated from the content read *before* the edit — and leaves no cache -/
+theorem runWithEdit_eq (s : State) (inv : Inv s) (k : Key) (files : List File) (f : File)
+    (hi : s.proc = .idle) (hm : hit s k = false) (hf : f ∈ files) :
+    (runWithEdit s k files f).1 =
+      { s with tree := s.tree.edit f
+               ninja := .complete (files.map (fun g => (g, s.tree.ver g))) k
+               cache := .absent
+               proc := .idle } := by
+  have h0 : next s (.start k files) = { s with proc := .parsing k files [] [] } := by
+    simp [next, hi]
+  have hmap : (files.map (fun f => (f, s.tree.ver f))).map (·.1) = files := by
+    simp [List.map_map, Function.comp_def]
+  have hall : (files.map (fun g => (g, s.tree.stamp g))).all
+      (fun q => (s.tree.edit f).stamp q.1 == q.2) = false := by
+    rw [List.all_eq_false]
+    refine ⟨(f, s.tree.stamp f), List.mem_map_of_mem hf, ?_⟩
+    have := inv.treeBelow f
+    simp [Cache.Tree.edit]
+    omega
+  simp only [runWithEdit, hm, Bool.false_eq_true, if_false, h0]
+  rw [show 4 * files.length + 12 = (2 * files.length + 11) + 2 * files.length + 1 by omega,
+    steps_parsing isParsedAll (fun _ _ _ _ => rfl) (fun _ _ _ _ _ => rfl) k files [] [] _ _ rfl,
+    stepsUntil_reached isParsedAll _ _ rfl]
+  simp only [List.nil_append, hmap, next]
+  rw [show 2 * files.length + 11 + 2 * files.length + 1 = (2 * files.length + 5) + 2 * files.length + 7 by omega,
+    steps_from_parsed k _ _ files (2 * files.length + 5) _ rfl (by simp)]
+  simp only [hall, Bool.false_eq_true, if_false]
+
+/-- REPAIRED: a run during which a loaded build file is edited between its read and the treestate pass leaves
+    NO cache record (so the next run, whatever its command line, regenerates), although it does leave a complete
+    ninja file made from the content read before the edit -/
+theorem window_edit_not_cached (s : State) (inv : Inv s) (k : Key) (files : List File) (f : File)
+    (hi : s.proc = .idle) (hm : hit s k = false) (hf : f ∈ files) :
+    (runWithEdit s k files f).1.cache = .absent ∧ (runWithEdit s k files f).1.proc = .idle ∧
+    (runWithEdit s k files f).1.ninja = .complete (files.map (fun g => (g, s.tree.ver g))) k ∧
+    (runWithEdit s k files f).1.tree = s.tree.edit f ∧
+    ∀ k', hit (runWithEdit s k files f).1 k' = false := by
+  rw [runWithEdit_eq s inv k files f hi hm hf]
+  exact ⟨rfl, rfl, rfl, rfl, fun _ => rfl⟩
+
+/-- the same for every reachable idle state -/
+theorem window_edit_not_cached_reachable (es : List Ev) (k : Key) (files : List File) (f : File)
+    (hi : (runEvents init es).proc = .idle) (hm : hit (runEvents init es) k = false) (hf : f ∈ files) (k' : Key) :
+    hit (runWithEdit (runEvents init es) k files f).1 k' = false :=
+  (window_edit_not_cached _ (inv_reachable es) k files f hi hm hf).2.2.2.2 k'
+
+/-- the protocol before this repair: identical to `next` except that the last micro-step writes the cache record
+    unconditionally, ignoring the outcome `ok` of the comparison pass -/
+def nextNoCheck (s : State) : Ev → State
+  | .step => match s.proc with
+      | .flushed k sn st _ => { s with cache := .record k st sn, proc := .idle }
+      | _ => next s .step
+  | e => next s e
+
+theorem nextNoCheck_eq_next (s : State) (e : Ev)
+    (h : e = .step → ∀ k sn st, s.proc ≠ .flushed k sn st false) : nextNoCheck s e = next s e := by
+  cases e <;> try rfl
+  cases hp : s.proc <;> simp [nextNoCheck, next, hp]
+  rename_i k sn st ok
+  cases ok
+  · exact absurd hp (h rfl _ _ _)
+  · intro h'; cases h'
+
+/-- a run over `["a"]` during which "a" is edited after it was read and before the treestate pass -/
+def windowTrace : List Ev :=
+  [.start k1 ["a"], .step, .step, .edit "a"] ++ List.replicate 10 .step
+
+/-- without the comparison, the record vouches — with the stamp taken AFTER the edit — for a ninja file made
+    from the content read BEFORE the edit: the next run is a hit on a stale file -/
+theorem nextNoCheck_unsound :
+    let s3 := (windowTrace.take 3).foldl nextNoCheck init
+    let s := windowTrace.foldl nextNoCheck init
+    s3.proc = .parsing k1 [] [("a", 0)] [("a", 0)] ∧
+    s.proc = .idle ∧ s.cache = .record k1 [("a", 1)] [("a", 0)] ∧ s.ninja = .complete [("a", 0)] k1 ∧
+    s.tree.ver "a" = 1 ∧ hit s k1 = true := by decide
+
+/-- … so the conclusion of `hit_sound` fails for `nextNoCheck`: a hit whose snapshot is not current -/
+theorem nextNoCheck_violates_hit_sound :
+    ∃ (es : List Ev) (k : Key), hit (es.foldl nextNoCheck init) k = true ∧
+      ¬ ∃ r st sn, (es.foldl nextNoCheck init).cache = .record r st sn ∧ keyValid r k = true ∧
+          (es.foldl nextNoCheck init).ninja = .complete sn r ∧
+          (∀ p ∈ sn, (es.foldl nextNoCheck init).tree.ver p.1 = p.2) := by
+  refine ⟨windowTrace, k1, by decide, ?_⟩
+  rintro ⟨r, st, sn, hc, _, _, hcur⟩
+  have h1 : (windowTrace.foldl nextNoCheck init).cache = .record k1 [("a", 1)] [("a", 0)] := by decide
+  have h2 : (windowTrace.foldl nextNoCheck init).tree.ver "a" = 1 := by decide
+  rw [h1] at hc
+  simp only [CacheFile.record.injEq] at hc
+  obtain ⟨_, _, rfl⟩ := hc
+  have := hcur ("a", 0) (by simp)
+  simp only at this
+  omega
+
+/-- the repaired protocol on the same history: the run completes, the comparison fails, no record is left -/
+example :
+    (runEvents init windowTrace).proc = .idle ∧ (runEvents init windowTrace).cache = .absent ∧
+    (runEvents init windowTrace).ninja = .complete [("a", 0)] k1 ∧
+    (∀ k ∈ [k1, k2, k1sub], hit (runEvents init windowTrace) k = false) ∧
+    -- the next run regenerates from the edited content and is cached again
+    (run (runEvents init windowTrace) k1 ["a"] .never).2 = .done ∧
+    (run (runEvents init windowTrace) k1 ["a"] .never).1.ninja = .complete [("a", 1)] k1 ∧
+    hit (run (runEvents init windowTrace) k1 ["a"] .never).1 k1 = true := by decide
+
+/-- the run-level form used by the correspondence check, and an edit at the other moments of `load`: between the
+    pre-read stat and the read (the read sees the new content, the record is withheld all the same — a safe
+    false alarm), and during the comparison pass after the file was compared (the record is written with the
+    pre-edit stamp, hence already stale: the next run misses) -/
+example :
+    (runWithEdit init k1 ["a", "b"] "a").1.cache = .absent ∧ (runWithEdit init k1 ["a", "b"] "a").2 = .done ∧
+    (runWithEdit init k1 ["a", "b"] "c").1.cache = .record k1 [("a", 0), ("b", 0)] [("a", 0), ("b", 0)] ∧
+    (let es : List Ev := [.start k1 ["a"], .step, .edit "a"] ++ List.replicate 11 .step
+     (runEvents init es).cache = .absent ∧ (runEvents init es).ninja = .complete [("a", 1)] k1) ∧
+    (let es : List Ev := [.start k1 ["a"]] ++ List.replicate 6 .step ++ [.edit "a"] ++ List.replicate 6 .step
+     (runEvents init es).cache = .record k1 [("a", 0)] [("a", 0)] ∧ hit (runEvents init es) k1 = false) := by
+  decide
 
 end Laze.C08
